@@ -198,6 +198,16 @@ def run(eng, rep, tier):
       ob.decide("R7", "C17.4", fe, "continues-while-either-changed", len(srcs) >= 2,
               "the continuation flag accumulates the change flags of both kinds",
               "the loop's continuation flag ignores one rule kind: the fixpoint stops early", None, site=site_of(prog, fe, fe.node))
+    # -------------------------------------------------------------- C17.6 every new mark raises the change flag
+    # The round-robin fixpoint of is_empty stops when one sweep reports no change.  Necessary condition: a routine that
+    # inserts into a marked set reports it - every insertion (into self.marked[..] / the marked-set parameter) sits in a
+    # block, or inside a block, that assigns the routine's change flag (the local initialised to False that the routine
+    # returns); insertions deferred through a local list are judged at the place the list is filled.
+    for cls_, nm in (("IndexedGrammar", "_duplication_processing"), ("IndexedGrammar", "_production_process"), (None, "addrec_ter")):
+        fm = prog.method(cls_, nm) if cls_ else prog.functions.get("pyformlang.indexed_grammar.indexed_grammar." + nm)
+        if fm is None:
+            continue          # the routine was merged / renamed: C17.4 (origins of the loop flag) still applies
+        _change_flag(ob, rep, prog, interp, fm, IG if cls_ else None)
     # -------------------------------------------------------------- C17.5 intersection goes through the transducer
     fx = prog.method("IndexedGrammar", "intersection")
     sx = interp.run_entry(fx, IG)
@@ -229,3 +239,77 @@ def _stmt(fn, node):
                 any(x is node for x in ast.walk(sub)):
             return sub
     return fn
+
+
+def _change_flag(ob, rep, prog, interp, fm, recv):
+    fn = fm.node
+    sm = interp.run_entry(fm, recv)
+    site0 = site_of(prog, fm, fn)
+    inits = {st.targets[0].id for st in fn.body if isinstance(st, ast.Assign) and len(st.targets) == 1 and
+             isinstance(st.targets[0], ast.Name) and isinstance(st.value, ast.Constant) and st.value.value is False}
+    returned = set()
+    for r in ast.walk(fn):
+        if isinstance(r, ast.Return) and r.value is not None:
+            # the change flag is what the routine returns, or the first component of the pair it returns (the second one
+            # is the early-stop signal)
+            e = r.value.elts[0] if isinstance(r.value, ast.Tuple) and r.value.elts else r.value
+            if isinstance(e, ast.Name):
+                returned.add(e.id)
+    flags = inits & returned
+
+    def marked_loc(l):
+        return (l[0] == "self" and l[1][:1] == ("marked",)) or l[0].startswith("p:marked")
+    ins = [ev for ev in sm.events if ev.kind == "write" and ev.wkind in ("mutate:add", "mutate:update", "mutate:__ior__")
+           and (any(marked_loc(l) for l in ev.target) or (ev.recv is not None and any(marked_loc(l) for l in ev.recv.alias)))]
+    role = "new-mark-raises-the-change-flag"
+    if not ins:
+        return rep.holds("R1", "C17.6", fm.qname, role, "the routine inserts into no marked set itself", site=site0,
+                         nontrivial=False)
+    if not flags:
+        return rep.error("R1", "C17.6", fm.qname, role, "the routine inserts into a marked set but has no local change flag "
+                         "(initialised to False and returned) the rule can follow", site=site0)
+    parent = {}
+    for n in ast.walk(fn):
+        for c in ast.iter_child_nodes(n):
+            parent[id(c)] = n
+
+    def sets_flag(st):
+        if isinstance(st, ast.Assign) and any(isinstance(t, ast.Name) and t.id in flags for t in st.targets):
+            return not (isinstance(st.value, ast.Constant) and st.value.value is False)
+        if isinstance(st, ast.AugAssign) and isinstance(st.target, ast.Name) and st.target.id in flags:
+            return True
+        return False
+
+    def raised_around(node):
+        """some enclosing statement list of the node assigns the flag (whenever the node runs, that list runs)"""
+        cur = node
+        while id(cur) in parent:
+            par = parent[id(cur)]
+            for fieldname in ("body", "orelse", "finalbody"):
+                blk = getattr(par, fieldname, None)
+                if isinstance(blk, list) and any(x is cur for x in blk):
+                    if par is not fn and any(sets_flag(st) for st in blk):
+                        return True
+            cur = par
+        return False
+
+    def deferred_ok(node):
+        cur = node
+        while id(cur) in parent:
+            par = parent[id(cur)]
+            if isinstance(par, ast.For) and isinstance(par.iter, ast.Name) and any(x is cur for x in par.body):
+                lst = par.iter.id
+                fills = [c for c in ast.walk(fn) if isinstance(c, ast.Call) and isinstance(c.func, ast.Attribute) and
+                         c.func.attr in ("append", "add", "extend") and isinstance(c.func.value, ast.Name) and c.func.value.id == lst]
+                created = any(isinstance(st, ast.Assign) and any(isinstance(t, ast.Name) and t.id == lst for t in st.targets)
+                              and isinstance(st.value, (ast.List, ast.Set, ast.Call)) for st in ast.walk(fn))
+                if fills and created and all(raised_around(c) for c in fills):
+                    return True
+            cur = par
+        return False
+    bad = [ev for ev in ins if not (raised_around(ev.node) or deferred_ok(ev.node))]
+    ob.decide("R1", "C17.6", fm, role, not bad,
+              "every insertion into a marked set (%d) is accompanied by the change flag %s" % (len(ins), "/".join(sorted(flags))),
+              "a set is newly marked without raising the change flag %s: the sweep can report `nothing changed` and the "
+              "fixpoint of is_empty stops before the start variable is marked" % "/".join(sorted(flags)), sm,
+              site=(bad[0].site.to_json() if bad else site0))
